@@ -23,6 +23,7 @@ This module also holds the record pool / renderers / parse helpers shared with
 harness/props/c16.py.
 """
 import json
+import re
 
 from harness import common
 from harness.common import Model, s2l
@@ -249,8 +250,10 @@ def render_entity(fmt, key, value, style=0):
     raise ValueError(fmt)
 
 
-def render(fmt, items, style=0):
-    """newline-terminated, junk-free text of a record list"""
+def render(fmt, items, style=0, indents=None):
+    """newline-terminated, junk-free text of a record list; [indents]: key -> blanks in
+    front of that entity's line (ini stream with indented keys; never in front of an
+    entity with an attached comment: comment lines must start a line)"""
     ind = "  " if fmt == "android" else ""
     out = []
     for i, it in enumerate(items):
@@ -258,7 +261,8 @@ def render(fmt, items, style=0):
         if t == "ent":
             if it[3] is not None:
                 out.append(ind + render_comment(fmt, it[3]) + "\n")
-            out.append(ind + render_entity(fmt, it[1], it[2], style) + "\n")
+            own = indents.get(it[1], "") if indents and it[3] is None else ""
+            out.append(ind + own + render_entity(fmt, it[1], it[2], style) + "\n")
         elif t == "com":
             # standalone: more than one newline after the comment (the PO comment regex
             # takes the comment's own newline)
@@ -528,6 +532,44 @@ def classify_order(fmt, case, entries, want_ids, want_vals):
     return "merge-order"
 
 
+INI_LINE_START = "merge-ws-fold-ini-comment-leaves-line-start"
+
+
+def classify_junk(fmt, case, entries, want_ids, want_vals):
+    """the one recognised family of junk in a merge of junk-free versions: in an .ini file a
+    comment no longer starts a line, because whitespace folding kept the LONGER whitespace
+    in front of it, one that ends in the blanks that indented a key in another version.
+    Every junk entry starts with a comment character and directly follows a whitespace
+    entry that ends in blanks after a line break; with those blanks (and the blanks in front
+    of further comment lines inside the junk text) taken away the text
+    re-parses without junk to the expected comment lines and keyed items in the expected
+    order.  Anything else stays merge-reparse-junk."""
+    if fmt != "ini":
+        return "merge-reparse-junk"
+    pieces, prev = [], None
+    for e in entries:
+        if ckind(e) == K_JUNK:
+            if prev is None or ckind(prev) != K_WHITE or e.all[:1] not in (";", "#"):
+                return "merge-reparse-junk"
+            w = pieces[-1]
+            stripped = w.rstrip(" \t")
+            if stripped == w or not stripped.endswith("\n"):
+                return "merge-reparse-junk"
+            pieces[-1] = stripped
+            # further comments swallowed by the same Junk entry lost their line start the
+            # same way (the whitespace in front of them is part of the junk text)
+            pieces.append(re.sub(r"(?m)^[ \t]+(?=[;#])", "", e.all))
+        else:
+            pieces.append(e.all)
+        prev = e
+    repaired = walk_bytes(FNAME[fmt], "".join(pieces).encode("utf-8"))
+    if any(ckind(e) == K_JUNK for e in repaired):
+        return "merge-reparse-junk"
+    if flat_parsed(fmt, repaired) == flat_expected(fmt, case["items"], want_ids, want_vals):
+        return INI_LINE_START
+    return "merge-reparse-junk"
+
+
 def oracle_merge(chk, case, out_text):
     """the statement of C15 on one case, from the records"""
     fmt, versions = case["fmt"], case["items"]
@@ -538,7 +580,8 @@ def oracle_merge(chk, case, out_text):
     desc = {"fmt": fmt, "versions": case["texts"], "items": versions}
     junk = [g for g in got if g[0] == "junk"]
     if junk:
-        chk.fail("merge-reparse-junk", desc, {"output": out_text, "junk": junk})
+        chk.fail(classify_junk(fmt, case, entries, want_ids, want_vals), desc,
+                 {"output": out_text, "junk": junk})
         return
     keys = [g[1] for g in got if g[0] == "e"]
     want_keys = [w[1] for w in want_ids if w[0] == "e"]
@@ -590,6 +633,18 @@ def gen_case(rng, fmt=None):
     style = rng.randint(0, 2)
     texts = [render(fmt, v, style) for v in versions]
     return {"fmt": fmt, "items": versions, "texts": texts}
+
+
+def gen_indented_ini(rng):
+    """an ordinary .ini case whose entities without attached comment are indented at random,
+    independently per version (indentation in front of a key is whitespace to IniParser)"""
+    case = gen_case(rng, "ini")
+    texts = []
+    for v in case["items"]:
+        indents = {it[1]: rng.choice(["  ", "\t", "    ", " "]) for it in v
+                   if it[0] == "ent" and rng.random() < 0.35}
+        texts.append(render("ini", v, 0, indents))
+    return {"fmt": "ini", "items": case["items"], "texts": texts}
 
 
 # fixed cases of the ordinary stream (run through the same oracle as the generated ones):
@@ -778,6 +833,23 @@ def run(chk, runner_ok):
     if model:
         chk.correspond("CHANNELS", cases, impl, model.call(reqs))
         chk.correspond("CHANNELS-entries", ecases, eimpl, model.call(ereqs))
+    # ---- CHANNELS-ini-indent: .ini versions with indented keys (junk-free); the listed finding
+    # merge-ws-fold-ini-comment-leaves-line-start lives here
+    icases, iimpl, ireqs = [], [], []
+    for i in range(chk.n(400, 4000)):
+        case = gen_indented_ini(rng)
+        name = FNAME["ini"]
+        res, text = impl_merge(name, case["texts"])
+        chk.count(("chi", case["texts"]))
+        if text is None:
+            chk.fail("merge-raises", {"fmt": "ini", "versions": case["texts"]}, res)
+        else:
+            oracle_merge(chk, case, text)
+        icases.append({"fmt": "ini", "versions": case["texts"]})
+        iimpl.append(res)
+        ireqs.append((0, [s2l(name), model_versions(name, case["texts"])]))
+    if model:
+        chk.correspond("CHANNELS-ini-indent", icases, iimpl, model.call(ireqs))
     # ---- CHANNELS-wild: outside the property's domain, model against implementation only
     wcases, wimpl, wreqs = [], [], []
     for i in range(chk.n(800, 8000)):
@@ -872,6 +944,7 @@ WITNESSES = [
       '<?xml version="1.0" encoding="utf-8"?>\n<resources>\n  <!-- note -->\n\n</resources>\n']),
     ("merge-ws-fold-loses-blank-line", "properties",
      ["a = 1\n   b = 2\n", "a = 1\n# note\n\n"]),
+    (INI_LINE_START, "ini", ["a=1\n;c\n\nb=2\n", "a=1\n\n  b=2\n"]),
 ]
 
 
@@ -889,6 +962,19 @@ def run_witnesses(chk, only=None):
                           "why": "prune keeps the LONGER whitespace by len(): the blank line after "
                                  "the older version's standalone comment loses against the newer "
                                  "version's newline+indentation, the comment is glued to the entity"})
+
+
+        if sig == INI_LINE_START and text is not None:
+            entries = walk_bytes(FNAME[fmt], text.encode("utf-8"))
+            junk = [e.all for e in entries if ckind(e) == K_JUNK]
+            if junk:
+                chk.fail(sig, {"fmt": fmt, "versions": texts},
+                         {"output": text, "junk": junk,
+                          "why": "prune keeps the LONGER whitespace by len(): the older version's "
+                                 "blank line + key indentation beats the newer version's line "
+                                 "break in front of the comment, which then does not start a "
+                                 "line: IniParser's comment expression is anchored, the comment "
+                                 "is Junk"})
 
 
 def replay(chk, path):
